@@ -1,6 +1,6 @@
 #!/bin/bash
 # usage: seedrun_wt.sh <name e.g. C07c> ; runs both seeds of /tmp/seed_<name>/seeds/{1,2} against the check of the property, on a scratch worktree
-x=$1; p=${x%c}; p=${p%b}; p=${p%d}; p=${p%e}; p=${p%f}; p=${p%g}
+x=$1; p=${x%c}; p=${p%b}; p=${p%d}; p=${p%e}; p=${p%f}; p=${p%g}; p=${p%h}
 cd /verif
 for n in 1 2; do
   d=/tmp/sw_$x; rm -rf $d; git -C /repo worktree prune; git -C /repo worktree add -q --detach $d HEAD
